@@ -59,9 +59,19 @@ func c01RunCase(c *Ctx, raw []byte) string {
 	return c01Exec(c, cs, nil)
 }
 
+// c01Poison is refused by every model type (some member every type knows has the wrong JSON type) after
+// the decoder has seen vendor extensions, unknown members, a $ref and a $schema.
+var c01Poison = []byte(`{"x-poison":{"p":[1]},"poison":"p","$ref":"#/definitions/poison","$schema":"http://poison.example/schema#","title":"poison","required":true,"description":5,"type":[5],"name":5,"get":5,"/p":5,"200":5,"url":5,"swagger":5,"in":5}`)
+
 func c01Exec(c *Ctx, cs docCase, parsed interface{}) string {
 	feat := func() map[string]string {
 		return map[string]string{"kind": cs.Kind, "target": cs.Target}
+	}
+	// history: a refused document of the same type (and a refused schema) is decoded first and thrown
+	// away; what a decoder learnt from input it rejected must not show up in the next value it builds
+	_ = json.Unmarshal(c01Poison, newTarget(cs.Target))
+	if cs.Target != "schema" {
+		_ = json.Unmarshal(c01Poison, newTarget("schema"))
 	}
 	tgt := newTarget(cs.Target)
 	if err := json.Unmarshal(cs.Doc, tgt); err != nil {
@@ -192,7 +202,7 @@ func c01Run(c *Ctx) {
 func init() {
 	register(&CheckDef{
 		ID: "C01", Build: "light", Run: c01Run, RunCase: c01RunCase,
-		Rule: "states = every normal-form object of each of the 17 kinds with cost <= bound (cost = optional members in the whole tree + non-default name/payload choices; alphabets in h/vocab.go, cross-checked against the shipped meta-schemas), each decoded directly and embedded along every route to the Swagger root (every container type on the route is a decode target); non-trivial = state with at least one optional member",
+		Rule: "states = every normal-form object of each of the 17 kinds with cost <= bound (cost = optional members in the whole tree + non-default name/payload choices; alphabets in h/vocab.go, cross-checked against the shipped meta-schemas), each decoded directly and embedded along every route to the Swagger root (every container type on the route is a decode target); every decode is preceded by the decode of a refused document into the same type (history: nothing learnt from rejected input may leak); non-trivial = state with at least one optional member",
 		Assumptions: []string{
 			"normal form as stated by C01: no nulls as members, no empty optional values, single-valued type, float64-exact numbers, no case-variant names, lower-case x- prefix, canonical $ref spellings",
 			"JSON values are compared numerically and member order is ignored",
